@@ -681,6 +681,16 @@ pub fn record_directed(out: &mut TraceOut, thorough: bool) -> Value {
         vec![8, 0xB0, 0xFF, 7, 0x0C, 8, 0xFF, 0x1C, 0xFF, 0xFF, 0xFF, 0xFF, 0xFF, 0xFF, 0xFF, 0xFF],
         vec![4, 0x99, 0xFF, 0xFF, 9, 3, 0, 2, 0, 0xFF, 0xFF, 0xFF, 0xFF, 0xFF, 0xFF, 0xFF],
         vec![4, 0x20, 1, 6, 7, 30, 30, 30, 0, 8, 9, 9, 9, 9, 9, 9],                          // known id, other bytes altered
+        // degenerate sizes: one column, one row, one pixel; no columns, no rows (nothing can be stored)
+        vec![4, 0x99, 0, 0, 8, 1, 0, 0, 0, 8, 0, 0, 0, 0, 0, 0],                             // 1 x 8
+        vec![4, 0x99, 0, 0, 1, 8, 0, 0, 0, 8, 0, 0, 0, 0, 0, 0],                             // 8 x 1
+        vec![4, 0x99, 0, 0, 1, 1, 0, 0, 0, 8, 0, 0, 0, 0, 0, 0],                             // 1 x 1
+        vec![4, 0x99, 0, 0, 1, 0, 1, 0, 0, 8, 0, 0, 0, 0, 0, 0],                             // 1 x 1, second panel
+        vec![4, 0x99, 0, 0, 8, 0, 0, 0, 0, 8, 0, 0, 0, 0, 0, 0],                             // 0 x 8
+        vec![4, 0x99, 0, 0, 0, 8, 0, 0, 0, 8, 0, 0, 0, 0, 0, 0],                             // 8 x 0
+        vec![8, 0xB0, 0, 7, 0x0C, 1, 0, 1, 1, 0, 1, 0, 0, 0, 0, 0],                          // Horizon 1 x 1
+        vec![8, 0xB0, 0, 7, 0x0C, 9, 0, 1, 1, 0, 1, 0, 0, 0, 0, 0],                          // Horizon 1 x 9
+        vec![8, 0xB0, 0, 7, 0x0C, 0, 0, 5, 1, 0, 5, 0, 0, 0, 0, 0],                          // Horizon 5 x 0
     ];
     if thorough {
         customs.push(vec![4, 0x99, 0, 0, 0xFF, 0xFF, 0xFF, 0xFF, 0xFF, 0x10, 0, 0, 0, 0, 0, 0]); // 1020 x 255 (32656 bytes)
